@@ -388,7 +388,7 @@ def schema_flow(chk, facts):
                    "%s takes a schema and builds a JSON parser: the parser's schema argument is made of %s (must be the schema parameter)" % (short(f.name), sorted(prod)),
                    where=f.where(t[1].get("l")), fn=f.name, key="%s:%s" % (rule, short(f.name)),
                    sample={"fn": short(f.name), "schema_arg": sorted(prod)})
-    chk.floor(rule, "schema-taking JSON entry points", n, 13)
+    chk.floor(rule, "schema-taking JSON entry points", n, 12)
 
 
 def run(chk, facts, tier):
